@@ -27,6 +27,16 @@ Definition rawdiff (th : list R) : list R :=
 (* wrapped_difference(np.diff(direction, append=direction[0]), period=360) *)
 Definition dstep (th : list R) : list R := map wrap360 (rawdiff th).
 
+(* grids used in the statements ------------------------------------------------------ *)
+(* the cyclic gaps of a reference grid phi: phi_1-phi_0, ..., phi_0+360-phi_{N-1} *)
+Definition cyc_gaps (phi : list R) : list R :=
+  match phi with [] => [] | p0 :: _ => diff_append (p0 + 360) phi end.
+
+(* uniform grid, possibly stored modulo 360: theta_j = t0 + j*dl (mod 360), N*dl = 360 *)
+Definition ugrid (t0 dl : R) (th : list R) : Prop :=
+  INR (length th) * dl = 360 /\
+  forall j, (j < length th)%nat -> cong360 (nth j th 0) (t0 + INR j * dl).
+
 (* ---------------- _directionally_integrate ---------------- *)
 (* (data * direction_step).sum("direction", skipna=True): a NaN product is skipped *)
 Definition wterm (g : option R) (s : R) : R :=
